@@ -8,6 +8,17 @@ PY = '/venv/bin/python'
 
 # property -> (category, level text, level note, technique, design ref)
 CLAIMED = {
+    'C17': ('other',
+            'Repository-specific static rules: (N1) may-alias analysis of collapse_one with the `file` parameter as root - no store/del/augmented '
+            'assignment/mutating call (incl. localise, add_out, remove...) on any name that may alias the template, and every object handed to the '
+            'target map is the result of .copy()/Output.combine(); (N2) collapse_all removes each instance entity before collapsing it, iterates '
+            'range(recur_limit) and ends in RecursionError (termination on cyclic inclusion); (N3) rotate-then-translate for positions and '
+            'rotation-only for directions/angles in fixup_key, collapse_one, Vec/Side/UVAxis.localise; (N4) all fixup styles handled. '
+            'The geometric law itself and FGD type dispatch are not claimed.',
+            'Trusted: CPython ast, engine/effects.py (flow-insensitive may-alias sets, positional zip binding). Depends on C09 for deep copies and C04 '
+            'for the algebra behind `@`.',
+            'static: may-alias/effect analysis of the collapse routine + call-shape rules for transform composition',
+            'DESIGN.md section 3, C17'),
     'C06': ('other',
             'Repository-specific static rules over the VMF writers and readers: per-pair agreement of the literal keys and block names emitted vs '
             'consumed (KV-text effect extraction with parameter/loop-table resolution; Output as a positional record), escape_text on every quoted '
